@@ -96,10 +96,18 @@ def decIdExt (unk : Members) : Option IdExt :=
 
 /-! ## Text level -/
 
-/-- the HTTP path (`endpoint_response`): one value from the front of the body, the rest is never looked at (F5) -/
-def decodeTokenBody {EF} (ext : Bytes → Bytes) (decEF : Members → Option EF) (body : Bytes) : Option (TokenResp EF) :=
+/-- the HTTP path as on the PINNED tree (before fix 896fd71): one value from the front of the body, the rest was
+never looked at (F5). Kept for the kernel-checked witness in Props/C05.lean. -/
+def decodeTokenBodyPinned {EF} (ext : Bytes → Bytes) (decEF : Members → Option EF) (body : Bytes) : Option (TokenResp EF) :=
   match parsePrefix body with
   | some (j, _) => decodeToken ext decEF j
+  | none => none
+
+/-- the HTTP path (`endpoint_response` → `deserialize_json`): the body must be ONE JSON document
+(`Deserializer::end`: only whitespace may follow the value) -/
+def decodeTokenBody {EF} (ext : Bytes → Bytes) (decEF : Members → Option EF) (body : Bytes) : Option (TokenResp EF) :=
+  match parseDocument body with
+  | some j => decodeToken ext decEF j
   | none => none
 
 /-- `serde_json::from_slice`: the whole text must be one document -/
